@@ -97,6 +97,7 @@ CHECKS["C19"] = {
             "Part realudp: every request sequence (depth 3 quick / 4 thorough) of {Binding, Allocate, the same Allocate retransmitted, Refresh 0, CreatePermission} over three clients against the real server on "
             "kernel loopback sockets (*net.UDPConn): answer only at the requester, mapped address = the socket's, relayed address unique and really reachable (sweep), retransmission gets identical attributes; "
             "strictly sequential, unexpected arrivals are violations at once, missing ones after three 5 s probes, unanswered fence => inconclusive. "
+            "Part sched (Engine B): an Allocate retransmitted while the first copy is still inside a slow relay-address generator creates nothing (one allocation, one relay socket, one relayed address answered), all interleavings up to the preemption bound. "
             "A class is (world, form, state) -> (class, code).",
     "parts": [A("vtx", "./checks/c19", "TestC19", budget={"quick": 90, "thorough": 1500}),
               A("realudp", "./checks/c19", "TestC19RealUDP", budget={"quick": 120, "thorough": 1500}),
@@ -165,6 +166,7 @@ CHECKS["C17"] = {
             "draft-uberti-behave-turn-rest (HMAC-SHA1/base64); handler called at every second boundary +-1 ms in [stamp-3, stamp+4] (thorough +-30 s): ok <=> now.Unix() <= stamp, key = MD5(user:realm:pass), "
             "and a wire-built Allocate signed with the generated password verifies under the returned key; every single-rune substitution/deletion/insertion over {0,9,:,+,-,a,space} of username, password and both; "
             "passwords of other secrets / usernames never authenticate; end to end through a real turn.Server on simnet at 7 instants around expiry plus forged requests. "
+            "The handler verdict is taken for every request method (Allocate, Refresh, CreatePermission, ChannelBind, Connect, ConnectionBind). Part concurrent is a sampling side condition, not a deciding step: 8 free-running goroutines share one handler under -race. "
             "A class is (pair kind, duration class, instant relative to the stamp, outcome) or (mutation kind, username shape, outcome).",
     "parts": [A("handlers", "./checks/c17", "TestC17Handlers", budget={"quick": 60, "thorough": 300}),
               A("mutations", "./checks/c17", "TestC17Mutations", budget={"quick": 60, "thorough": 300}),
@@ -234,7 +236,7 @@ CHECKS["C09"] = {
             "from the server address and from another address against the documented handled/error table; (client-bursts, shared with C13) a client holding an allocation is fed 1100 / 3000 Data indications with no or a slow reader, "
             "12 ConnectionAttempt indications with nobody accepting, ChannelData/Data payloads of every length 0..24 with and without a leading magic cookie, and must keep reading; (client-stream) the real client with Listen running over turn.NewSTUNConn on a simnet stream is sent one validly framed hostile frame "
             "(STUN success / indication / request or ChannelData in and beyond the bound range x declared length in 21 classes up to 0xFFFF x {whole, 1000-byte segments, byte at a time} x 2 contents) "
-            "and must then complete a Binding transaction. Oracle: no panic in any goroutine (process survival), every batch reaches quiescence (no spin / wedge), then a liveness probe: "
+            "and must then complete a Binding transaction. (tls) a TLS listener (crypto/tls over simnet, virtual time): after each hostile connection that sends nothing / a partial record header / a record header announcing 16 KiB / clear-text STUN / garbage and stays open, a fresh party must complete its handshake and a Binding transaction within 2 s. Oracle: no panic in any goroutine (process survival), every batch reaches quiescence (no spin / wedge), then a liveness probe: "
             "Binding from the same source answered, a pre-existing victim allocation still relays in both directions and still refreshes. A class is (part, source, shape) -> served.",
     "parts": [A("udp", "./checks/c09", "TestC09ServerUDP", budget={"quick": 60, "thorough": 600}, hard_timeout={"quick": 240, "thorough": 1500}),
               A("stream", "./checks/c09", "TestC09ServerStream", budget={"quick": 60, "thorough": 600}, hard_timeout={"quick": 240, "thorough": 1500}),
@@ -253,6 +255,7 @@ CHECKS["C15"] = {
             "{UDP listener, stream listener, staggered timeouts (100s,40s,70s) on both}; after every event: open relay "
             "sockets/listeners == those of the model's live allocations, Server.AllocationCount == their number, lifecycle callbacks pair up (no delete without create, none twice, outstanding == live model entries); then a drain "
             "through all deadlines, 2 h of silence (no callback, no socket activity on behalf of ended allocations), Server.Close (nothing owned by the server stays open, count 0) and goroutine drain of the bubble. "
+            "Part rich: allocations owning several permissions, three channel bindings and (stream listener) a TCP allocation with pending and bound peer connections, EVEN-PORT allocations and a wildcard listener, ended in every way (depth 2/3). Part tls: every non-empty subset of {silent, stalled in a record, clear text, handshake done idle, handshake done with allocation} connections on a TLS listener, Server.Close at once or after the 10 s handshake time-out: a failed handshake closes its connection, nothing accepted stays open. Part sched (Engine B, preemption-bounded DFS over the real goroutines): expiry during a slow lifecycle callback (allocation / permission / channel, also the permission callback of a ChannelBind), equal deadlines, expiry during a slow Connect dial of the own and of another allocation (with a relay probe after the expiry). "
             "A class is (event class => response); distinct_nontrivial counts those.",
     "parts": [A("vtx", "./checks/c15", "TestC15", budget={"quick": 90, "thorough": 1500}),
               A("rich", "./checks/c15", "TestC15Rich", budget={"quick": 60, "thorough": 900}),
